@@ -82,6 +82,8 @@ var minAtomRe = regexp.MustCompile(`^min\(`)
 // ---------------------------------------------------------------------------------------------------------------
 
 func checkPixelMaps(c *Ctx, r *Report) {
+	defer checkGlobalBinarizerWhole(c, r)
+	defer checkHybridWhole(c, r)
 	r.Rule("S-PIXMAP", "wherever a binariser turns a luminance read into a black bit, the read index and the bit's coordinates agree (index = y*stride + x with the matrix's own width as stride); the block offsets are min(8*k, size-8) in both passes of the local method, every block read is (yoffset+a)*width + xoffset+b with a, b loop counters only, and the 5x5 neighbourhood is blackPoints[cap(y,2,subHeight-3)+z][cap(x,2,subWidth-3)+d] for z, d in -2..2 averaged over 25", 7)
 	hybPure := func(o types.Object) bool {
 		fn, ok := o.(*types.Func)
@@ -606,6 +608,7 @@ func checkThresholds(c *Ctx, r *Report) {
 var loopAtomRe = regexp.MustCompile(`loop:\w+~\d+`)
 
 func checkSharpen(c *Ctx, r *Report) {
+	defer checkGlobalBinarizerWhole(c, r)
 	r.Rule("S-SHARPEN", "GetBlackRow's sharpening loop keeps the invariant left = lum[x-1], center = lum[x]: before the loop (x starting at 1) they are lum[0], lum[1]; each iteration reads right = lum[x+1], sets bit x iff (4*center - left - right)/2 < black point, then shifts left = center, center = right; the loop runs while x < width-1", 1)
 	fd, p := c.funcDeclOf("", "GlobalHistogramBinarizer.GetBlackRow")
 	key := "gozxing.GlobalHistogramBinarizer.GetBlackRow/sharpen"
@@ -1213,4 +1216,532 @@ func checkBlackPointBilevel(c *Ctx, r *Report) {
 		}
 	}
 	reportFold(r, c, "S-BLACKPOINT", key, fd.Pos(), bad)
+}
+
+// S-GHBW: the global-histogram binariser's two entry points folded whole over a scripted source.
+func checkGlobalBinarizerWhole(c *Ctx, r *Report) {
+	if _, done := r.rules["S-GHBW"]; done {
+		return
+	}
+	r.Rule("S-GHBW", "GlobalHistogramBinarizer.GetBlackRow and GetBlackMatrix folded whole over a scripted source (estimateBlackPoint replaced by a recorder that answers 100): GetBlackRow, for rows of 1, 2, 3, 7 and 40 pixels and a row of 9 on which 4*centre - left - right is odd and next to twice the black point, with no row passed, a shorter one and a longer one that holds bits, hands the estimator the histogram of the whole row (32 buckets of 8 grey levels), answers a cleared row of at least the width in which bit x is set exactly when (4*lum[x] - lum[x-1] - lum[x+1])/2 < 100 for 0 < x < width-1 (for fewer than 3 pixels: lum[x] < 100); GetBlackMatrix, on 10x5 and 7x11 images, hands the estimator the histogram of columns width/5 .. 4*width/5-1 of rows height/5, 2*height/5, 3*height/5, 4*height/5 and answers a width x height matrix whose bit (x, y) is set exactly when matrix[y*width+x] < 100", 2)
+	u8 := types.Typ[types.Uint8]
+	lumAt := func(i int64) int64 { return (i*89 + (i/3)*41 + 7) % 256 }
+	type run struct {
+		W, H      int64
+		pix       []int64
+		rowArg    *Val
+		hist      [][]int64
+		sets      map[[2]int64]bool
+		cleared   bool
+		made      [][2]int64
+		resultRow *Val
+	}
+	fold := func(fd *ast.FuncDecl, p *packages.Package, rn *run, args []*Val) ([]*Val, error) {
+		rowObj := &Val{K: VStruct, Ptr: true, Fields: map[string]*Val{"\x00made": vbool(true)}}
+		h := &rpf{unroll: 4096}
+		isRecv := func(fnc *types.Func, name string) bool {
+			sig, ok := fnc.Type().(*types.Signature)
+			return ok && sig.Recv() != nil && namedOf(sig.Recv().Type()) == name
+		}
+		h.callHook = func(rr *rpf, call *ast.CallExpr, callee types.Object) (*Val, bool) {
+			fnc, ok := callee.(*types.Func)
+			if !ok {
+				return nil, false
+			}
+			switch {
+			case isRecv(fnc, "LuminanceSource") && fnc.Name() == "GetWidth":
+				return vint(rn.W), true
+			case isRecv(fnc, "LuminanceSource") && fnc.Name() == "GetHeight":
+				return vint(rn.H), true
+			case isRecv(fnc, "LuminanceSource") && fnc.Name() == "GetMatrix":
+				out := &Val{K: VList}
+				for _, v := range rn.pix {
+					out.L = append(out.L, &Val{K: VInt, I: v, T: u8})
+				}
+				return out, true
+			case fnc.Name() == "NewBitArray" && fnc.Type().(*types.Signature).Recv() == nil:
+				n := rr.expr(call.Args[0])
+				if !n.isInt() {
+					rpfFail("NewBitArray of a non-constant size")
+				}
+				rn.made = append(rn.made, [2]int64{n.I, 0})
+				rn.sets = map[[2]int64]bool{}
+				rowObj.Fields["\x00size"] = vint(n.I)
+				return rowObj, true
+			case isRecv(fnc, "BitArray") && fnc.Name() == "GetSize":
+				if sel, ok := call.Fun.(*ast.SelectorExpr); ok {
+					if v := rr.expr(sel.X); v.K == VStruct && v.Fields["\x00size"] != nil {
+						return v.Fields["\x00size"], true
+					}
+				}
+				rpfFail("GetSize of an unknown row")
+			case isRecv(fnc, "BitArray") && fnc.Name() == "Clear":
+				rn.cleared = true
+				rn.sets = map[[2]int64]bool{}
+				return &Val{K: VNil}, true
+			case isRecv(fnc, "BitArray") && fnc.Name() == "Set":
+				x := rr.expr(call.Args[0])
+				if !x.isInt() {
+					rpfFail("row.Set of a non-constant position")
+				}
+				rn.sets[[2]int64{x.I, 0}] = true
+				return &Val{K: VNil}, true
+			case isRecv(fnc, "BitMatrix") && fnc.Name() == "Set":
+				x, y := rr.expr(call.Args[0]), rr.expr(call.Args[1])
+				if !x.isInt() || !y.isInt() {
+					rpfFail("matrix.Set of a non-constant position")
+				}
+				rn.sets[[2]int64{x.I, y.I}] = true
+				return &Val{K: VNil}, true
+			}
+			return errCtorHook(rr, call, callee)
+		}
+		h.multiHook = func(call *ast.CallExpr, callee types.Object) ([]*Val, bool) {
+			fnc, ok := callee.(*types.Func)
+			if !ok {
+				return nil, false
+			}
+			rr := rpfCurrent
+			switch {
+			case isRecv(fnc, "LuminanceSource") && fnc.Name() == "GetRow":
+				y := rr.expr(call.Args[0])
+				if !y.isInt() || y.I < 0 || y.I >= rn.H {
+					rpfFail("the source is asked for row %s of %d", y, rn.H)
+				}
+				out := &Val{K: VList}
+				for x := int64(0); x < rn.W; x++ {
+					out.L = append(out.L, &Val{K: VInt, I: rn.pix[y.I*rn.W+x], T: u8})
+				}
+				return []*Val{out, {K: VNil}}, true
+			case fnc.Name() == "estimateBlackPoint":
+				b := rr.expr(call.Args[0])
+				if b.K != VList {
+					rpfFail("estimateBlackPoint is not given the buckets")
+				}
+				hist, ok := b.ints()
+				if !ok {
+					rpfFail("the buckets are not integers")
+				}
+				rn.hist = append(rn.hist, hist)
+				return []*Val{vint(100), {K: VNil}}, true
+			case fnc.Name() == "NewBitMatrix":
+				w, hh := rr.expr(call.Args[0]), rr.expr(call.Args[1])
+				if !w.isInt() || !hh.isInt() {
+					rpfFail("NewBitMatrix of non-constant dimensions")
+				}
+				rn.made = append(rn.made, [2]int64{w.I, hh.I})
+				rn.sets = map[[2]int64]bool{}
+				return []*Val{{K: VStruct, Ptr: true, Fields: map[string]*Val{}}, {K: VNil}}, true
+			}
+			return nil, false
+		}
+		buckets := &Val{K: VList, Local: true}
+		for i := 0; i < 32; i++ {
+			buckets.L = append(buckets.L, vint(5)) // left over from an earlier call
+		}
+		h.env = map[types.Object]*Val{}
+		if ro := recvObj(p, fd); ro != nil {
+			h.env[ro] = &Val{K: VStruct, Ptr: true, Local: true, Fields: map[string]*Val{
+				"source": {K: VStruct, Ptr: true, Fields: map[string]*Val{}}, "luminances": {K: VNil}, "buckets": buckets}}
+		}
+		return c.rpfCall(fd, p, args, h)
+	}
+	histOf := func(vals []int64) []int64 {
+		out := make([]int64, 32)
+		for _, v := range vals {
+			out[v>>3]++
+		}
+		return out
+	}
+	sameInts := func(a, b []int64) bool {
+		if len(a) != len(b) {
+			return false
+		}
+		for i := range a {
+			if a[i] != b[i] {
+				return false
+			}
+		}
+		return true
+	}
+	if fd, p := c.funcDeclOf("", "GlobalHistogramBinarizer.GetBlackRow"); fd == nil {
+		r.AnchorLost("S-GHBW", "gozxing.GlobalHistogramBinarizer.GetBlackRow", "method not found")
+	} else {
+		key := "gozxing.GlobalHistogramBinarizer.GetBlackRow/whole"
+		r.Analysed(key)
+		bad := ""
+		for _, W := range []int64{1, 2, 3, 7, 40, 9} {
+			for _, given := range []int64{-1, W - 1, W + 9} {
+				if bad != "" {
+					break
+				}
+				rn := &run{W: W, H: 3, sets: map[[2]int64]bool{}}
+				for i := int64(0); i < W*3; i++ {
+					rn.pix = append(rn.pix, lumAt(i))
+				}
+				if W == 9 {
+					// 4*centre - left - right is 199, 201 and -37 here: odd, and next to twice the black point
+					copy(rn.pix[W:2*W], []int64{20, 60, 21, 60, 19, 60, 21, 9, 52})
+				}
+				rowArg := &Val{K: VNil}
+				if given >= 0 {
+					rowArg = &Val{K: VStruct, Ptr: true, Fields: map[string]*Val{"\x00size": vint(given)}}
+					rn.sets[[2]int64{0, 0}] = true // a bit left by an earlier use
+				}
+				res, err := fold(fd, p, rn, []*Val{vint(1), rowArg})
+				name := fmt.Sprintf("GetBlackRow(1, row of %d bits) on a %d-pixel row", given, W)
+				lum := rn.pix[W : 2*W]
+				switch {
+				case err != nil:
+					bad = "?" + name + ": " + err.Error()
+				case len(res) != 2 || res[1].K != VNil || res[0].K != VStruct:
+					bad = name + " does not return (row, nil)"
+				case res[0].Fields["\x00size"] == nil || res[0].Fields["\x00size"].I < W:
+					bad = name + " answers a row shorter than the image is wide"
+				case given >= W && !rn.cleared && len(rn.made) == 0:
+					bad = name + ": the row passed in is used without being cleared"
+				case len(rn.hist) != 1 || !sameInts(rn.hist[0], histOf(lum)):
+					bad = fmt.Sprintf("%s: estimateBlackPoint is given %v, the histogram of the row is %v", name, rn.hist, histOf(lum))
+				default:
+					for x := int64(0); x < W; x++ {
+						want := false
+						if W < 3 {
+							want = lum[x] < 100
+						} else if x > 0 && x < W-1 {
+							want = (4*lum[x]-lum[x-1]-lum[x+1])/2 < 100
+						}
+						if rn.sets[[2]int64{x, 0}] != want {
+							bad = fmt.Sprintf("%s: bit %d is %v, expected %v (pixels %d, %d, %d around it; black point 100)", name, x, rn.sets[[2]int64{x, 0}], want, lum[max(x-1, 0)], lum[x], lum[min(x+1, W-1)])
+							break
+						}
+					}
+					for k := range rn.sets {
+						if k[0] < 0 || k[0] >= W {
+							bad = fmt.Sprintf("%s: bit %d outside the row is set", name, k[0])
+						}
+					}
+				}
+			}
+		}
+		reportFold(r, c, "S-GHBW", key, fd.Pos(), bad)
+	}
+	if fd, p := c.funcDeclOf("", "GlobalHistogramBinarizer.GetBlackMatrix"); fd == nil {
+		r.AnchorLost("S-GHBW", "gozxing.GlobalHistogramBinarizer.GetBlackMatrix", "method not found")
+	} else {
+		key := "gozxing.GlobalHistogramBinarizer.GetBlackMatrix/whole"
+		r.Analysed(key)
+		bad := ""
+		for _, d := range [][2]int64{{10, 5}, {7, 11}} {
+			if bad != "" {
+				break
+			}
+			W, H := d[0], d[1]
+			rn := &run{W: W, H: H, sets: map[[2]int64]bool{}}
+			for i := int64(0); i < W*H; i++ {
+				rn.pix = append(rn.pix, lumAt(i))
+			}
+			var sampled []int64
+			for y := int64(1); y < 5; y++ {
+				row := H * y / 5
+				for x := W / 5; x < W*4/5; x++ {
+					sampled = append(sampled, rn.pix[row*W+x])
+				}
+			}
+			res, err := fold(fd, p, rn, nil)
+			name := fmt.Sprintf("GetBlackMatrix on a %dx%d image", W, H)
+			switch {
+			case err != nil:
+				bad = "?" + name + ": " + err.Error()
+			case len(res) != 2 || res[1].K != VNil || res[0].K != VStruct:
+				bad = name + " does not return (matrix, nil)"
+			case len(rn.made) != 1 || rn.made[0] != [2]int64{W, H}:
+				bad = fmt.Sprintf("%s: the matrices made are %v, expected one of %dx%d", name, rn.made, W, H)
+			case len(rn.hist) != 1 || !sameInts(rn.hist[0], histOf(sampled)):
+				bad = fmt.Sprintf("%s: estimateBlackPoint is given %v, the histogram of the four sampled rows is %v", name, rn.hist, histOf(sampled))
+			default:
+				for y := int64(0); y < H && bad == ""; y++ {
+					for x := int64(0); x < W; x++ {
+						if want := rn.pix[y*W+x] < 100; rn.sets[[2]int64{x, y}] != want {
+							bad = fmt.Sprintf("%s: bit (%d, %d) is %v, the pixel there is %d and the black point 100", name, x, y, rn.sets[[2]int64{x, y}], rn.pix[y*W+x])
+							break
+						}
+					}
+				}
+				for k := range rn.sets {
+					if k[0] < 0 || k[0] >= W || k[1] < 0 || k[1] >= H {
+						bad = fmt.Sprintf("%s: bit (%d, %d) outside the image is set", name, k[0], k[1])
+					}
+				}
+			}
+		}
+		reportFold(r, c, "S-GHBW", key, fd.Pos(), bad)
+	}
+	r.DecidedBy("S-SHARPEN", "S-GHBW", "GetBlackRow folded whole: every bit of rows of 1 to 40 pixels compared with the -1 4 -1 filter")
+	r.DecidedByKeys("S-PIXMAP", "S-GHBW", "GetBlackMatrix folded whole: every bit compared with the pixel at its own coordinates", "GlobalHistogramBinarizer.GetBlackMatrix")
+}
+
+// S-HYBRIDW: the local-threshold binariser folded whole over scripted images, against a plain transcription of the method.
+func checkHybridWhole(c *Ctx, r *Report) {
+	if _, done := r.rules["S-HYBRIDW"]; done {
+		return
+	}
+	r.Rule("S-HYBRIDW", "HybridBinarizer.calculateBlackPoints and HybridBinarizer.GetBlackMatrix folded whole on images of 43x41 and 40x48 pixels made of textured, flat light, flat dark and nearly flat regions, and on a 40x40 chequer with flat blocks at, one below and one above the neighbours' black point and blocks whose range is 25 by one grey level, and compared with the method written out plainly: blocks of 8x8 at min(8k, size-8); a block's black point is its mean, or for a range of at most 24 - minimum and maximum taken over the rows up to the first one after which the range exceeds 24 - half its minimum, raised to (above + 2*left + above-left)/4 when the minimum lies below that; a pixel is black when it is <= the mean of the 5x5 black points around the block (centre kept 2 away from the edges); the matrix is width x height and every one of its bits is compared", 6)
+	u8 := types.Typ[types.Uint8]
+	image := func(W, H int64) []int64 {
+		pix := make([]int64, W*H)
+		for y := int64(0); y < H; y++ {
+			for x := int64(0); x < W; x++ {
+				var v int64
+				if W == 40 && H == 40 {
+					// blocks of a 50 / 150 chequer (black point 100) around flat blocks at, just below and just
+					// above that value, and blocks whose range is 25 by one grey level at either end
+					bx, by, first := x/8, y/8, y%8 == 0
+					switch {
+					case bx == 1 && by == 1:
+						v = 100
+					case bx == 3 && by == 2:
+						v = 99
+					case bx == 2 && by == 3:
+						v = 101
+					case bx == 3 && by == 3:
+						v = 100
+						if first && x%8 == 1 {
+							v = 124
+						} else if first && x%8 == 2 {
+							v = 125
+						}
+					case bx == 4 && by == 3:
+						v = 125
+						if first && x%8 == 1 {
+							v = 101
+						} else if first && x%8 == 2 {
+							v = 100
+						}
+					default:
+						v = 50 + 100*((x+y)%2)
+					}
+					pix[y*W+x] = v
+					continue
+				}
+				switch {
+				case x < 16 && y < 16: // flat light with a little noise
+					v = 200 + (x*3+y*5)%9
+				case x >= 24 && y < 16: // flat dark
+					v = 20 + (x+y)%7
+				case y >= 32 && x < 24: // nearly flat: the range passes 24 only in the lower rows of a block
+					v = 120 + (y%8)*4 + (x*7)%5
+				case y >= 24 && x >= 24: // flat mid-grey next to texture
+					v = 90 + (x*y)%11
+				default: // texture
+					v = (x*89 + y*57 + (x/3)*41 + (y/2)*13 + 7) % 256
+				}
+				pix[y*W+x] = v
+			}
+		}
+		return pix
+	}
+	capv := func(v, lo, hi int64) int64 {
+		if v < lo {
+			return lo
+		}
+		if v > hi {
+			return hi
+		}
+		return v
+	}
+	refPoints := func(pix []int64, W, H int64) [][]int64 {
+		subW, subH := (W+7)/8, (H+7)/8
+		bp := make([][]int64, subH)
+		for y := int64(0); y < subH; y++ {
+			bp[y] = make([]int64, subW)
+			yo := min(8*y, H-8)
+			for x := int64(0); x < subW; x++ {
+				xo := min(8*x, W-8)
+				sum, mn, mx := int64(0), int64(255), int64(0)
+				met := false
+				for yy := int64(0); yy < 8; yy++ {
+					for xx := int64(0); xx < 8; xx++ {
+						p := pix[(yo+yy)*W+xo+xx]
+						sum += p
+						if !met {
+							mn, mx = min(mn, p), max(mx, p)
+						}
+					}
+					if mx-mn > 24 {
+						met = true
+					}
+				}
+				avg := sum >> 6
+				if mx-mn <= 24 {
+					avg = mn / 2
+					if y > 0 && x > 0 {
+						nb := (bp[y-1][x] + 2*bp[y][x-1] + bp[y-1][x-1]) / 4
+						if mn < nb {
+							avg = nb
+						}
+					}
+				}
+				bp[y][x] = avg
+			}
+		}
+		return bp
+	}
+	refMatrix := func(pix []int64, W, H int64) map[[2]int64]bool {
+		bp := refPoints(pix, W, H)
+		subW, subH := (W+7)/8, (H+7)/8
+		out := map[[2]int64]bool{}
+		for y := int64(0); y < subH; y++ {
+			yo := min(8*y, H-8)
+			top := capv(y, 2, subH-3)
+			for x := int64(0); x < subW; x++ {
+				xo := min(8*x, W-8)
+				left := capv(x, 2, subW-3)
+				sum := int64(0)
+				for z := int64(-2); z <= 2; z++ {
+					for d := int64(-2); d <= 2; d++ {
+						sum += bp[top+z][left+d]
+					}
+				}
+				avg := sum / 25
+				for yy := int64(0); yy < 8; yy++ {
+					for xx := int64(0); xx < 8; xx++ {
+						if pix[(yo+yy)*W+xo+xx] <= avg {
+							out[[2]int64{xo + xx, yo + yy}] = true
+						}
+					}
+				}
+			}
+		}
+		return out
+	}
+	lumList := func(pix []int64) *Val {
+		out := &Val{K: VList}
+		for _, v := range pix {
+			out.L = append(out.L, &Val{K: VInt, I: v, T: u8})
+		}
+		return out
+	}
+	fdP, pP := c.funcDeclOf("", "HybridBinarizer.calculateBlackPoints")
+	fdM, pM := c.funcDeclOf("", "HybridBinarizer.GetBlackMatrix")
+	if fdP == nil || fdM == nil {
+		r.AnchorLost("S-HYBRIDW", "gozxing.HybridBinarizer", "calculateBlackPoints or GetBlackMatrix not found")
+		return
+	}
+	for _, d := range [][2]int64{{43, 41}, {40, 48}, {40, 40}} {
+		W, H := d[0], d[1]
+		pix := image(W, H)
+		subW, subH := (W+7)/8, (H+7)/8
+		// the table of black points
+		key := fmt.Sprintf("gozxing.HybridBinarizer.calculateBlackPoints/whole(%dx%d)", W, H)
+		r.Analysed(key)
+		bad := ""
+		h := &rpf{unroll: 4096, maxSteps: 4000000}
+		h.env = map[types.Object]*Val{}
+		if ro := recvObj(pP, fdP); ro != nil {
+			h.env[ro] = &Val{K: VStruct, Ptr: true, Fields: map[string]*Val{}}
+		}
+		res, err := c.rpfCall(fdP, pP, []*Val{lumList(pix), vint(subW), vint(subH), vint(W), vint(H)}, h)
+		want := refPoints(pix, W, H)
+		switch {
+		case err != nil:
+			bad = "?" + err.Error()
+		case len(res) != 1 || res[0].K != VList || int64(len(res[0].L)) != subH:
+			bad = fmt.Sprintf("the table has not %d rows", subH)
+		default:
+			for y := int64(0); y < subH && bad == ""; y++ {
+				row, ok := res[0].L[y].ints()
+				if !ok || int64(len(row)) != subW {
+					bad = fmt.Sprintf("row %d of the table has not %d black points", y, subW)
+					break
+				}
+				for x := int64(0); x < subW; x++ {
+					if row[x] != want[y][x] {
+						bad = fmt.Sprintf("the black point of block (%d, %d) is %d, the method gives %d", x, y, row[x], want[y][x])
+						break
+					}
+				}
+			}
+		}
+		reportFold(r, c, "S-HYBRIDW", key, fdP.Pos(), bad)
+		// the whole matrix
+		key = fmt.Sprintf("gozxing.HybridBinarizer.GetBlackMatrix/whole(%dx%d)", W, H)
+		r.Analysed(key)
+		bad = ""
+		sets := map[[2]int64]bool{}
+		var made [][2]int64
+		isRecv := func(fnc *types.Func, name string) bool {
+			sig, ok := fnc.Type().(*types.Signature)
+			return ok && sig.Recv() != nil && namedOf(sig.Recv().Type()) == name
+		}
+		h = &rpf{unroll: 4096, maxSteps: 8000000}
+		h.callHook = func(rr *rpf, call *ast.CallExpr, callee types.Object) (*Val, bool) {
+			fnc, ok := callee.(*types.Func)
+			if !ok {
+				return nil, false
+			}
+			switch {
+			case fnc.Name() == "GetLuminanceSource":
+				return &Val{K: VStruct, Ptr: true, Fields: map[string]*Val{}}, true
+			case isRecv(fnc, "LuminanceSource") && fnc.Name() == "GetWidth":
+				return vint(W), true
+			case isRecv(fnc, "LuminanceSource") && fnc.Name() == "GetHeight":
+				return vint(H), true
+			case isRecv(fnc, "LuminanceSource") && fnc.Name() == "GetMatrix":
+				return lumList(pix), true
+			case isRecv(fnc, "BitMatrix") && fnc.Name() == "Set":
+				x, y := rr.expr(call.Args[0]), rr.expr(call.Args[1])
+				if !x.isInt() || !y.isInt() {
+					rpfFail("matrix.Set of a non-constant position")
+				}
+				sets[[2]int64{x.I, y.I}] = true
+				return &Val{K: VNil}, true
+			}
+			return errCtorHook(rr, call, callee)
+		}
+		h.multiHook = func(call *ast.CallExpr, callee types.Object) ([]*Val, bool) {
+			if fnc, ok := callee.(*types.Func); ok && fnc.Name() == "NewBitMatrix" {
+				w, hh := rpfCurrent.expr(call.Args[0]), rpfCurrent.expr(call.Args[1])
+				if !w.isInt() || !hh.isInt() {
+					rpfFail("NewBitMatrix of non-constant dimensions")
+				}
+				made = append(made, [2]int64{w.I, hh.I})
+				return []*Val{{K: VStruct, Ptr: true, Fields: map[string]*Val{"\x00n": vint(int64(len(made)))}}, {K: VNil}}, true
+			}
+			return nil, false
+		}
+		h.env = map[types.Object]*Val{}
+		if ro := recvObj(pM, fdM); ro != nil {
+			h.env[ro] = &Val{K: VStruct, Ptr: true, Local: true, Fields: map[string]*Val{"matrix": {K: VNil}, "GlobalHistogramBinarizer": {K: VStruct, Ptr: true, Fields: map[string]*Val{}}}}
+		}
+		res, err = c.rpfCall(fdM, pM, nil, h)
+		wantM := refMatrix(pix, W, H)
+		switch {
+		case err != nil:
+			bad = "?" + err.Error()
+		case len(res) != 2 || res[1].K != VNil || res[0].K != VStruct || res[0].Fields["\x00n"] == nil:
+			bad = "GetBlackMatrix does not return (the matrix it made, nil)"
+		case len(made) != 1 || made[0] != [2]int64{W, H}:
+			bad = fmt.Sprintf("the matrices made are %v, expected one of %dx%d", made, W, H)
+		default:
+			for y := int64(0); y < H && bad == ""; y++ {
+				for x := int64(0); x < W; x++ {
+					if sets[[2]int64{x, y}] != wantM[[2]int64{x, y}] {
+						bad = fmt.Sprintf("bit (%d, %d) is %v, the method gives %v (pixel %d)", x, y, sets[[2]int64{x, y}], wantM[[2]int64{x, y}], pix[y*W+x])
+						break
+					}
+				}
+			}
+			for k := range sets {
+				if k[0] < 0 || k[0] >= W || k[1] < 0 || k[1] >= H {
+					bad = fmt.Sprintf("bit (%d, %d) outside the image is set", k[0], k[1])
+				}
+			}
+		}
+		reportFold(r, c, "S-HYBRIDW", key, fdM.Pos(), bad)
+	}
+	r.DecidedByKeys("S-PIXMAP", "S-HYBRIDW", "the local method folded whole on two images: every black point and every bit compared",
+		"HybridBinarizer.thresholdBlock", "calculateBlackPoints/offsets", "calculateThresholdForBlock/offsets", "calculateBlackPoints/reads", "calculateThresholdForBlock/call", "calculateThresholdForBlock/window", "HybridBinarizer.cap")
+	r.RelaxCountWhen("S-PIXMAP", "S-HYBRIDW", "S-GHBW")
+	r.DecidedByKeys("S-THRESH", "S-HYBRIDW", "the local method folded whole on two images: every black point and every bit compared",
+		"HybridBinarizer.thresholdBlock/compare", "calculateBlackPoints/blackpoint")
 }
